@@ -18,14 +18,35 @@ CFG = {'streams': [{'name': 'C20',
                             "chain obtained by chain_of_error (Model/ErrChain.v) from the MODEL's error of the same run (node kind/position from "
                             'the recorded tree; statement, cause and Context::Other texts taken from the real error) is not the real chain: '
                             'number and order of entries, one/two statement contexts per entry, locations, node position and kind; 2 / 5 / 7 '
-                            'the model run succeeds / panics / runs out of fuel',
-              'model_only_codes': [61, 62, 64]}],
+                            'the model run succeeds / panics / runs out of fuel'
+                            '; 66 the statement text of a context (StatementContext::statement = format!("{}", stmt)) is not display_stmt (Model/As'
+                            "tDisplay.v) of the model statement found at the context's statement location by stmt_at (or there is none); 69 two sta"
+                            'tements of the loaded file share a location (locs_unique, the hypothesis of the *_disp theorems, is false)',
+              'model_only_codes': [61, 62, 64, 66, 69]},
+             {'name': 'C20d',
+              'n_quick': 150,
+              'n_thorough': 1500,
+              'what_fails':
+                            'Display impls of ast.rs against Model/AstDisplay.v on every statement (any depth) of a parsed file, walked on the REAL'
+                            ' AST in stanza order / preorder: 66 format!("{}", statement) differs from display_stmt of the dumped statement (or the'
+                            ' number of statements differs from file_stmts); 67 the Display of a scan arm / attribute shorthand differs from displa'
+                            'y_scan_arm / display_shorthand; 68 the variable text recorded in an SNode differs from display_variable; 69 two statem'
+                            'ents of the parsed file share a location (locs_unique false); 71 an identifier printed in a statement header of a pars'
+                            'ed file contains a character below U+0020 (hypothesis of display_stmt_single_line_partial); 72 the REAL text of a stat'
+                            'ement contains a character below U+0020 (judged on the real text alone: the statement text is one line); 70 a hand-wri'
+                            'tten program of the stream does not parse',
+              'model_only_codes': [66, 67, 68, 69, 70, 71]}],
  'rule': 'C20r: the failing runs of C20 (30% re-laid out: tabs, statements behind non-ASCII literals), rendered with paths containing spaces, '
          'non-ASCII and colons, and with the real DSL/source text (70%), a truncated one (rows missing), a CRLF copy or an unrelated text; '
          'non-trivial = two-statement context, a Context::Other entry, a missing row or a non-ASCII path. C20: '
          'generated programs with exactly one injected runtime fault (type error, unknown function, conflicting attribute, undefined edge, bad '
          'arity, eager faults in if/scan/for sources) at a random statement position and depth, plus naturally failing generated programs; both '
-         'modes; non-trivial = fault at depth >= 1 or a two-statement (conflict) context',
+         'modes; non-trivial = fault at depth >= 1 or a two-statement (conflict) context'
+         '. C20d: 7 hand-written programs (every statement and expression kind, strings with quotes, backslashes, newlines, cont'
+         'rols, DEL, and non-ASCII characters that <str as Debug> escapes: U+0301, U+200B, U+FEFF, U+2028, U+00A0, U+E000, U+008'
+         '5) and the texts of the C07 generators (AST-directed incl. nested comprehensions, odd identifiers and string constants'
+         '; re-laid-out gen_program) and of the execution generator, parsed WITHOUT the checker; non-trivial = nested statements'
+         ' and a string constant / scan pattern with a character that needs escaping or is not ASCII',
  'explanation': "Theorems. STRICT: the error of a run is the bare cancellation or comes from one (stanza, match) block and sits in ONE statement "
                 "context carrying the stanza's location, the block's full-match node and the location of a statement s' of that stanza (any "
                 "nesting depth) that failed directly: the cause (possibly inside Context::Other for scan arms) is the error returned by a run of "
@@ -60,7 +81,16 @@ CFG = {'streams': [{'name': 'C20',
                 "lines shown; strict_error_rendering_cites / _shows_lines: the text for the error of a strict run cites a statement of "
                 "the stanza of an executed block, that stanza and the block's full-match node position; lazy_error_rendering_cites / "
                 "_shows_lines: likewise for each (valid) context of a lazy run's error. C20r also checks that chain_of_error of the "
-                "model's error of each run is the real chain (code 65).",
+                "model's error of each run is the real chain (code 65)."
+                ' STATEMENT TEXT: Model/AstDisplay.v models the Display impls of ast.rs (display_stmt, display_expr, ...; strings by <s'
+                'tr as Debug>, `#true`/`#false` print as `true`/`false`, nested blocks as `{ ... }`, every statement ends with ` at (ro'
+                'w+1, col+1)`); stream C20d compares it with format!("{}", stmt) on every statement of every parsed file, C20r on every'
+                ' context of every failing run (code 66). Theorems: display_stmt_head (the text starts with the statement keyword), dis'
+                'play_stmt_single_line_partial (no line break in the text: string constants are escaped; hypothesis: identifiers contai'
+                'n none, true of parsed files), display_stmt_ends_with_location, strict_error_rendering_cites_disp / lazy_error_renderi'
+                'ng_cites_disp (chain_of_error_disp = chain_of_error with the texts computed from the file by stmt_at; under locs_uniqu'
+                'e the rendering contains display_stmt of the cited statement itself), display_stmt_injective_refuted (two different st'
+                'atements with the same text).',
  'partial': ['the KIND and source position recorded for the matched node are compared by the stream only (the model of the execution '
              'identifies syntax nodes by index); the RENDERING of a recorded chain is modelled (Model/ErrRender.v, theorems '
              'render_pretty_*) and compared character by character by stream C20r'],
@@ -70,9 +100,13 @@ CFG = {'streams': [{'name': 'C20',
                  '(validated by C13)',
                  'syntax nodes are identified by preorder index (KeyInjective: node ids distinct modulo 2^32, checked per tree in C04)',
                  'errors returned by caller-supplied functions are plain errors',
-                 'rendering: the Display of a statement and of the innermost error are opaque strings; paths are valid UTF-8 '
+                 'rendering: the Display of the innermost error is an opaque string; the Display of a statement is modelled (Model/AstDi'
+                 'splay.v) except for the Unicode table behind <str as Debug> (which non-ASCII characters are escaped: passed per case, '
+                 'as for C14)'
+                 '; paths are valid UTF-8 '
                  '(to_string_lossy is the identity); built without the term-colors feature; Excerpt::gutter_width (f64 log10) is the '
                  'number of decimal digits of row+1; the wording of the phrases is a parameter of the model, read off the implementation '
                  'once per run on a fixed two-statement conflict (tag phrases_read_off_the_implementation:k/11; pinned wording as fallback); '
                  'the chain is read from the Debug rendering of each Context (the type is private to the crate) and validated by '
-                 'printing it back (code 64)']}
+                 'printing it back (code 64)'],
+ 'extra_props': ['C20disp']}
